@@ -245,6 +245,84 @@ def run_driver(requests: list[dict], timeout=3600) -> list[dict]:
     return [json.loads(l) for l in lines]
 
 
+
+# --------------------------------------------------------------------------------------
+# how much of the implementation the correspondence run executes (evidence; never a verdict)
+# --------------------------------------------------------------------------------------
+class ImplCoverage:
+    """Line and branch coverage of the library files a property is anchored in, measured while the implementation is
+    driven by the corpus and the generated cases. It is *evidence* about the tie between model and code (a line no case
+    executes is a line whose change the correspondence cannot see); it never decides anything."""
+
+    def __init__(self):
+        self.cov = None
+        if os.environ.get("VERIF_NO_COVERAGE") == "1":
+            return
+        try:
+            import coverage
+
+            self.cov = coverage.Coverage(
+                data_file=None, branch=True, include=[str(REPO / "src" / "model_diagnostics" / "*")], config_file=False
+            )
+        except Exception:
+            self.cov = None
+
+    def __enter__(self):
+        if self.cov is not None:
+            try:
+                self.cov.start()
+            except Exception:
+                self.cov = None
+        return self
+
+    def __exit__(self, *a):
+        if self.cov is not None:
+            try:
+                self.cov.stop()
+            except Exception:
+                pass
+
+    def report(self, files: list[str]) -> dict:
+        if self.cov is None:
+            return {"measured": False}
+        out = {"measured": True, "files": {}}
+        for rel in files:
+            f = REPO / rel
+            if not f.exists():
+                continue
+            try:
+                _, executable, _, missing, _ = self.cov.analysis2(str(f))
+                ana = self.cov._analyze(str(f))  # noqa: SLF001  (branch numbers are not in the public API)
+                nb, mb = ana.numbers.n_branches, ana.numbers.n_missing_branches
+            except Exception as e:  # file never imported in this run
+                out["files"][rel] = {"note": f"not measured ({type(e).__name__})"}
+                continue
+            if len(missing) == len(executable):
+                continue  # a file this run never entered (e.g. the plots for a non-plotting property)
+            out["files"][rel] = {
+                "lines_executable": len(executable),
+                "lines_executed": len(executable) - len(missing),
+                "branches": nb,
+                "branches_taken": nb - mb,
+                "missing_lines": _ranges(missing),
+            }
+        return out
+
+
+def _ranges(nums):
+    out, start, prev = [], None, None
+    for n in sorted(nums):
+        if start is None:
+            start = prev = n
+        elif n == prev + 1:
+            prev = n
+        else:
+            out.append(f"{start}-{prev}" if prev > start else str(start))
+            start = prev = n
+    if start is not None:
+        out.append(f"{start}-{prev}" if prev > start else str(start))
+    return ",".join(out)
+
 # --------------------------------------------------------------------------------------
 # property interface
 # --------------------------------------------------------------------------------------
@@ -308,7 +386,8 @@ def evaluate(P: Prop, cases: list[dict]):
     ios = [safe_impl(P, c) for c in cases]
     reqs, slots = [], []
     for i, c in enumerate(cases):
-        r = P.model_request(c)
+        # a request may depend on what the implementation did (e.g. how many artists it drew: a parameter of the model)
+        r = P.model_request_io(c, ios[i]) if hasattr(P, "model_request_io") else P.model_request(c)
         if r is None:
             slots.append(None)
         elif isinstance(r, list):
@@ -450,7 +529,9 @@ def run_check(P: Prop, tier: str, seed: int, replay: str | None = None) -> int:
         cases = [doc["case"]] if "case" in doc else doc["cases"]
     else:
         cases = load_corpus(P) + list(P.generate(tier, rng))
-    results = evaluate(P, cases)
+    implcov = ImplCoverage()
+    with implcov:
+        results = evaluate(P, cases)
     # change-triggered escalation: the code this property depends on differs from the snapshot the models were last
     # validated against -> further seeds of the same streams, within a wall-clock budget (never a disagreement by itself)
     from . import anchors
@@ -466,7 +547,8 @@ def run_check(P: Prop, tier: str, seed: int, replay: str | None = None) -> int:
                 break
             k += 1
             s2 = seed + 7001 * k
-            results += evaluate(P, list(P.generate(tier, random.Random(s2))))
+            with implcov:
+                results += evaluate(P, list(P.generate(tier, random.Random(s2))))
             escalated_seeds.append(s2)
     seen, nontrivial = set(), 0
     dist = {}
@@ -566,6 +648,7 @@ def run_check(P: Prop, tier: str, seed: int, replay: str | None = None) -> int:
         "repo": str(REPO),
         "anchored_source_changed": moved,
         "escalated_seeds": escalated_seeds,
+        "implementation_coverage": implcov.report(anchors.property_files(P.id)),
     }
     if leanchecker is not None:
         cov["leanchecker"] = leanchecker
